@@ -40,7 +40,7 @@ def plan(tier, seed):
 
 def floors(tier):
     strata = ["single-datum", "same-time", "options-omitted", "options-empty", "options-partial", "span:1ms", "span:8ms", "span:50ms", "span:second", "span:minute",
-              "span:hour", "span:day", "span:week", "span:month", "span:year", "span:300y", "month-end-window", "leap-day-window", "year-end-window", "linear-single", "explicit-width-forms", "bounds-forms",
+              "span:hour", "span:day", "span:week", "span:month", "span:year", "span:300y", "month-end-window", "leap-day-window", "year-end-window", "linear-single", "explicit-width-forms", "bounds-forms", "export-to-file",
               "big", "general"]
     return {"evaluations": 500, "strata": strata, "events": {"Timeline.__init__": 500, "TimelineSVG.export": 200, "TimelineTex.export": 200},
             "distinct_nontrivial": 100, "max_inconclusive_frac": 0.02}
@@ -85,6 +85,43 @@ def judge(ctx, mons, spec, stratum, nontrivial=True):
             ctx.judge(stratum, VIOLATED, case, finding={"reason": "document has %d dots for %d data" % (len(P.dots), len(spec["data"]))}, key="dot-count")
             continue
         ctx.judge(stratum, HELD, case if (len(ctx.samples) < 3 and len(spec["data"]) <= 2) else None, nontrivial=nontrivial, dig=kind + repr(spec)[:4000])
+
+
+def export_to_file_cases(ctx, mons):
+    """export(filename): the documented way of using the library (README, examples/): a bare file name in the current
+    directory and a path with a directory part; the file must hold the document export() returns."""
+    import os
+    import tempfile
+
+    from labella.timeline import TimelineSVG, TimelineTex
+
+    t0 = dt.datetime(2021, 3, 14, 9, 26, 53)
+    cwd = os.getcwd()
+    with tempfile.TemporaryDirectory(prefix="vmon-c11-") as tmp:
+        try:
+            os.chdir(tmp)
+            os.mkdir("sub")
+            for cls, ext, kw in ((TimelineSVG, "svg", {}), (TimelineTex, "tex", {"build_pdf": False})):
+                for target in ("timeline." + ext, os.path.join("sub", "t." + ext), os.path.join(tmp, "abs." + ext), "./dot." + ext):
+                    for d in ("up", "left"):
+                        data = [{"time": t0 + dt.timedelta(hours=7 * i), "width": 30 + i, "text": "L%d" % i} for i in range(4)]
+                        case = {"class": cls.__name__, "target": target if not os.path.isabs(target) else "<tmp>/abs." + ext, "direction": d}
+                        try:
+                            tl = cls(data, options={"direction": d, "initialWidth": 500, "initialHeight": 400})
+                            ref = tl.export()
+                            tl.export(target, **kw)
+                            with open(target, "rb") as fh:
+                                got = fh.read()
+                            refb = ref if isinstance(ref, bytes) else (ref if isinstance(ref, str) else "\n".join(ref)).encode("utf-8")
+                            if got.strip() != refb.strip():
+                                ctx.judge("export-to-file", VIOLATED, case, finding={"reason": "file content differs from the returned document", "file_bytes": len(got), "returned_bytes": len(refb)}, key="file-differs")
+                            else:
+                                ctx.judge("export-to-file", HELD, None, nontrivial=True, dig=repr(case))
+                            os.remove(target)
+                        except Exception as e:
+                            ctx.judge("export-to-file", VIOLATED, case, finding={"exception": type(e).__name__, "message": str(e)[:200]}, key="raised " + type(e).__name__)
+        finally:
+            os.chdir(cwd)
 
 
 def strata_specs(rng):
@@ -163,6 +200,8 @@ def worker(ctx, shard):
             if ctx.should_stop(60):
                 break
             judge(ctx, mons, spec, stratum)
+        if shard["sub"] == 0:
+            export_to_file_cases(ctx, mons)
     elif kind == "general":
         rng = ctx.rng("general%d" % shard["sub"])
         for _ in range(shard["n"]):
